@@ -532,6 +532,13 @@ def build_unit(template_path, repo, out_path, extra_sources=None, exclude=()):
         return open(os.path.join(os.path.dirname(template_path), m.group(1).strip())).read()
     for _ in range(4):
         tpl = re.sub(r"^[ \t]*//@include[ \t]+(\S+)[ \t]*$", inc, tpl, flags=re.M)
+    # //@requires <item name> ... //@endrequires: template text (lemmas, trait
+    # impls) that only makes sense together with an extracted item; it leaves the
+    # unit with that item
+    def req(m):
+        return "" if m.group(1) in exclude else m.group(2)
+    tpl = re.sub(r"^[ \t]*//@requires[ \t]+(\S+)[ \t]*\n(.*?)^[ \t]*//@endrequires[ \t]*\n", req, tpl,
+                 flags=re.M | re.S)
     segs = parse_template(tpl)
     out = []
     regions = {}
